@@ -54,9 +54,12 @@ def cases(rng, tier):
             out.append({"kind": rng.choice(["scalar_left", "scalar_right"]), "a": a, "f": f, "c": rng.randint(0, 3), "dta": "int64"})
         out.append({"kind": "scalar_right", "a": a, "f": rng.choice(BIN + BIN_EXTRA), "c": rng.choice([0, 1, 2, 3]), "dta": rng.choice(gens.DTYPES)})
         out.append({"kind": "scalar_left", "a": a, "f": rng.choice(BIN + BIN_EXTRA), "c": rng.choice([1, 2, 3]), "dta": rng.choice(gens.DTYPES)})
-        out.append({"kind": "unary", "a": a, "f": rng.choice(UNARY), "dta": rng.choice(gens.DTYPES)})
+        out.append({"kind": "unary", "a": a, "f": rng.choice(UNARY), "dta": rng.choice(gens.DTYPES), "predecode": rng.random() < 0.5})
+        out.append({"kind": rng.choice(["scalar_left", "scalar_right"]), "a": a, "f": rng.choice(BIN), "c": rng.randint(1, 3), "dta": rng.choice(["int64", "float64", "uint8"]), "predecode": True})
         for red in rng.sample(RED, 3):
             out.append({"kind": "reduce", "a": a, "f": red, "dta": rng.choice(gens.DTYPES)})
+        out.append({"kind": "reduce", "a": a, "f": "histogram", "dta": rng.choice(["int64", "uint8", "float64", "int16"]),
+                    "hist": {"bins": rng.choice([1, 2, 3, 5, [0, 1, 2], [0.5, 1.5], [0, 1, 3], [1, 2]]), "range": rng.choice([None, None, [0, 1], [1, 2], [0.5, 2.2], [0, 4], [-1, 1]])}})
         # reductions over NEIGHBOURING extreme values (2**63-2, 2**63-1, ...): sums that leave the 64-bit range, means of huge values
         out.append({"kind": "reduce", "a": a, "f": rng.choice(["sum", "mean", "max", "np.sum", "np.mean"]), "dta": rng.choice(["int64", "uint64", "int32", "uint8", "float64"]), "vm": "near"})
         out.append({"kind": "sum", "a": a, "dta": "int64"})
@@ -138,6 +141,18 @@ def distribution(ps):
     return d
 
 
+def _hist_kw(p):
+    """bins and range of a histogram case: the default of the first rounds, or bins / explicit edges / a range that leaves
+    part of the data outside on either side"""
+    h = p.get("hist")
+    if not h:
+        return {"bins": 3, "range": (0, 3)}
+    kw = {"bins": h["bins"]}
+    if h.get("range") is not None:
+        kw["range"] = tuple(h["range"])
+    return kw
+
+
 def _vals(classes, dt, mode=True):
     return rlgen.to_values(classes, dt, small=mode)
 
@@ -169,12 +184,15 @@ def run_impl(p):
             if k == "reduce":
                 fn = p["f"]
                 if fn == "histogram":
-                    h, e = np.histogram(x, bins=3, range=(0, 3))
+                    h, e = np.histogram(x, **_hist_kw(p))
                     return (h, e)
                 if fn.startswith("np."):
                     return getattr(np, fn[3:])(x)
                 return getattr(x, fn)()
             uf = getattr(np, p["f"])
+            if p.get("predecode"):
+                # the operand has been decoded / printed before the operation
+                x.to_array(); np.asarray(x); str(x)
             if k == "unary":
                 res = uf(x)
             elif k == "scalar_right":
@@ -220,7 +238,7 @@ def oracle(p):
             if k == "reduce":
                 fn = p["f"]
                 if fn == "histogram":
-                    return canon(np.histogram(a, bins=3, range=(0, 3)))
+                    return canon(np.histogram(a, **_hist_kw(p)))
                 if fn.startswith("np."):
                     return canon(getattr(np, fn[3:])(a))
                 return canon(getattr(a, fn)())
@@ -253,7 +271,7 @@ def lean_request(p):
         return {"op": "RL.binop", "kind": k, "a": p["a"], "c": p["c"], "f": p["f"]}
     if k == "sum":
         return {"op": "RL.binop", "kind": "sum", "a": p["a"], "f": "add"}
-    if k == "reduce" and p["f"] == "histogram":
+    if k == "reduce" and p["f"] == "histogram" and not p.get("hist"):
         return {"op": "RL.binop", "kind": "hist", "a": p["a"], "f": "add"}
     if k == "concat":
         return {"op": "RL.binop", "kind": "concat", "a": [], "parts": p["parts"], "f": "add"}
